@@ -24,7 +24,7 @@ CallOK(rec) ==
 VARIABLE i
 TInit == i = 1
 TNext == i < Len(Recs) /\ i' = i + 1
-         /\ (CallOK(Recs[i + 1]) \/ PrintT(<<"L2FAIL", "C17", Recs[i + 1].id>>))
+         /\ (IF CallOK(Recs[i + 1]) THEN TRUE ELSE PrintT(<<"L2FAIL", "C17", Recs[i + 1].id>>))
 TSpec == TInit /\ [][TNext]_i
 Done == i = Len(Recs) => PrintT(<<"TRACE-END", i>>)
 =============================================================================
